@@ -284,10 +284,28 @@ func Universe(name string, size string, seed int64) []RawKey {
 			run := strings.Repeat("a", n)
 			u = append(u, rk(run+"b"), rk(run+"c"))
 		}
+		// case variants differ only at the tertiary level: their sort keys share EVERYTHING up to the last weights (paths
+		// longer than the whole sort key of a shorter run)
+		for _, n := range []int{5, 7, 9, 12} {
+			run := strings.Repeat("a", n)
+			u = append(u, rk(run+"a"), rk(run+"A"))
+		}
 		for n := 1; n <= 16; n++ {
 			u = append(u, rp(strings.Repeat("a", n)))
 		}
 		u = append(u, rp("b"), rp(""))
+		return u
+
+	case "textcase":
+		// collation, closed: two pairs of case variants (sort keys sharing everything up to the last tertiary weights: root
+		// paths of 30+ bytes) and every shorter run of the letter as an absent key
+		u := []RawKey{rk("aaaaaa"), rk("aaaaaA"), rk("aaaaaaaaa"), rk("aaaaaaaaA"), rk("b")}
+		for n := 1; n <= 8; n++ {
+			if n != 6 {
+				u = append(u, rp(strings.Repeat("a", n)))
+			}
+		}
+		u = append(u, rp("aaaaaaaaaa"), rp(""), rp("A"))
 		return u
 
 	case "textnfd":
